@@ -173,11 +173,13 @@ pub fn make_batch(dir: &str, prefix: &str, rng: &mut Rng, want: usize, rep: &mut
                 }
             }
             2 if g.rules.len() > 1 => {
-                let n = g.rules[rng.range(1, g.rules.len() - 1)].name.clone();
+                let others: Vec<String> = g.nt_names().into_iter().filter(|n| *n != g.start).collect();
+                let n = rng.pick(&others[..]).clone();
                 g.nt_types.push((n, "crate::pv_grammar::UNt".into()));
             }
             3 if g.rules.len() > 1 => {
-                let target = g.rules[rng.range(1, g.rules.len() - 1)].name.clone();
+                let others: Vec<String> = g.nt_names().into_iter().filter(|n| *n != g.start).collect();
+                let target = rng.pick(&others[..]).clone();
                 for r in g.rules.iter_mut() {
                     set_utype(&mut r.alts, rng, false, "crate::pv_grammar::UNt", Some(&target));
                 }
@@ -390,9 +392,10 @@ pub fn run(ctx: &Ctx, c23: bool) -> i32 {
     let mut rng = Rng::derive(ctx.seed, if c23 { "c23" } else { "c22" }, 0, 0);
     for b in 0..nbatches {
         if Instant::now() > ctx.deadline {
-            rep.count("batches_not_run_deadline");
+            rep.count_n("cases_not_run_deadline", (nbatches - b) as u64);
             break;
         }
+        rep.count("cases_run");
         let dir = format!("/verif/work/batch-{}-{}-{b}", ctx.prop, ctx.build);
         let prefix = format!("{}{}b{b}", ctx.prop.to_lowercase(), &ctx.build[..1]);
         let members = make_batch(&dir, &prefix, &mut rng, per, &mut rep, c23);
